@@ -63,7 +63,7 @@ fn current_timestamp_millis() -> u64 {
         .unwrap_or(0)
 }
 
-use parking_lot::RwLock;
+use parking_lot::{Mutex, RwLock};
 use rayon::prelude::*;
 use serde::{Deserialize, Serialize};
 use tensor_store::{fields, ScalarValue, TensorData, TensorStore, TensorValue};
@@ -1770,6 +1770,10 @@ pub struct GraphEngine {
     geo_indexes: RwLock<HashMap<String, geo::GeoIndex>>,
     /// Striped locks for concurrent index updates.
     index_locks: Vec<RwLock<()>>,
+    /// Striped locks serializing the read-modify-write of adjacency lists
+    /// (`node:N:out` / `node:N:in`), so concurrent edge changes on one node
+    /// cannot lose each other's list entries.
+    adjacency_locks: Vec<Mutex<()>>,
     /// Whether the label index has been initialized (for lazy auto-creation).
     label_index_initialized: AtomicBool,
     /// Whether the edge type index has been initialized (for lazy auto-creation).
@@ -1801,6 +1805,11 @@ fn create_index_locks(count: usize) -> Vec<RwLock<()>> {
     (0..count).map(|_| RwLock::new(())).collect()
 }
 
+/// Creates vector of `Mutex`es for striped adjacency-list locking.
+fn create_adjacency_locks(count: usize) -> Vec<Mutex<()>> {
+    (0..count.max(1)).map(|_| Mutex::new(())).collect()
+}
+
 impl GraphEngine {
     const PARALLEL_THRESHOLD: usize = 100;
     const AGGREGATE_PARALLEL_THRESHOLD: usize = 1000;
@@ -1823,6 +1832,7 @@ impl GraphEngine {
             fulltext_indexes: RwLock::new(HashMap::new()),
             geo_indexes: RwLock::new(HashMap::new()),
             index_locks: create_index_locks(lock_count),
+            adjacency_locks: create_adjacency_locks(lock_count),
             label_index_initialized: AtomicBool::new(false),
             edge_type_index_initialized: AtomicBool::new(false),
             constraints: RwLock::new(HashMap::new()),
@@ -1893,6 +1903,7 @@ impl GraphEngine {
             fulltext_indexes: RwLock::new(HashMap::new()),
             geo_indexes: RwLock::new(HashMap::new()),
             index_locks: create_index_locks(config.index_lock_count),
+            adjacency_locks: create_adjacency_locks(config.index_lock_count),
             label_index_initialized: AtomicBool::new(label_index_exists),
             edge_type_index_initialized: AtomicBool::new(edge_type_index_exists),
             constraints: RwLock::new(constraints),
@@ -1943,6 +1954,7 @@ impl GraphEngine {
             fulltext_indexes: RwLock::new(HashMap::new()),
             geo_indexes: RwLock::new(HashMap::new()),
             index_locks: create_index_locks(config.index_lock_count),
+            adjacency_locks: create_adjacency_locks(config.index_lock_count),
             label_index_initialized: AtomicBool::new(label_index_exists),
             edge_type_index_initialized: AtomicBool::new(edge_type_index_exists),
             constraints: RwLock::new(constraints),
@@ -3370,7 +3382,20 @@ impl GraphEngine {
         Ok(id)
     }
 
+    /// Locks the stripe guarding the adjacency list stored under `key`.
+    ///
+    /// Held only across the list's get/modify/put; no other lock is taken
+    /// while it is held.
+    #[allow(clippy::cast_possible_truncation)]
+    fn lock_adjacency(&self, key: &str) -> parking_lot::MutexGuard<'_, ()> {
+        let mut hasher = std::collections::hash_map::DefaultHasher::new();
+        key.hash(&mut hasher);
+        let stripe = &self.adjacency_locks[(hasher.finish() as usize) % self.adjacency_locks.len()];
+        stripe.lock()
+    }
+
     fn add_edge_to_list(&self, key: String, edge_id: u64) -> Result<()> {
+        let _list_guard = self.lock_adjacency(&key);
         let mut tensor = self.store.get(&key).unwrap_or_else(|_| TensorData::new());
         let mut edges = Self::extract_edge_ids(&tensor);
         if !edges.contains(&edge_id) {
@@ -6438,6 +6463,7 @@ impl GraphEngine {
     }
 
     fn remove_edge_from_list(&self, key: &str, edge_id: u64) -> Result<()> {
+        let _list_guard = self.lock_adjacency(key);
         if let Ok(mut tensor) = self.store.get(key) {
             // Remove from new Pointers format
             if let Some(TensorValue::Pointers(ptrs)) = tensor.get("_edges") {
